@@ -49,6 +49,12 @@ def guarded(stage, fn, *a, **k):
         if type(e).__name__ == "CaseTimeout":
             raise
         tb = sys.exc_info()[2]
+        errs = list(env.CAPTURE.errors())
+        if errs and isinstance(e, (ValueError, OSError)) and errs[-1][2].strip() and errs[-1][2].strip() in str(e):
+            # dassh's other documented error style: log the message at ERROR level, then raise it
+            r = Rejected(stage, errs)
+            r.via_exception = type(e).__name__
+            raise r
         raise Crashed(stage, e, env.innermost_dassh_frame(tb), traceback.format_exc()[-3000:])
 
 
